@@ -176,6 +176,41 @@ pub fn run(thorough: bool, seed: u64, _replay: Option<String>) -> Report {
             }
         }
     }
+    // (3) the chaos of a text that fits the window is a function of the text and the threshold – not of which
+    // thresholds the same text was analysed under before: texts with a noisy start and a clean remainder (the
+    // early stop of the analysis fires for some thresholds only), asked under several thresholds in a row, then
+    // each threshold again on cold caches
+    {
+        let heads = ["#+#+#+#+#+#+#+#+", "<<==>>||~~--__$$%%^^&&**", "\u{1}\u{2}\u{7}#+#+#+#+", "\u{a4}$\u{a4}$\u{a4}$\u{a4}$\u{a4}$"];
+        for (k, head) in heads.iter().enumerate() {
+            if !thorough && k % 2 == 1 {
+                continue;
+            }
+            let body = stretch(&mut rng, TEXTS[1 + k].1, 380 + 90 * k);
+            let bytes = format!("{}{}", head.repeat(1 + k % 2), body).into_bytes();
+            let thrs = [0.2f32, 0.5, 0.1, 0.3, 1.0, 0.05];
+            let mk = |thr: f32| {
+                let mut s = Sett::default();
+                s.thr = thr;
+                s.fb = false;
+                s.pre = false;
+                s.incl = vec!["utf-8".to_string()];
+                s
+            };
+            charset_normalizer_rs::verif_hooks::flush_caches();
+            let warm: Vec<Outcome> = thrs.iter().map(|t| real_detect(&bytes, &mk(*t))).collect();
+            for (t, w) in thrs.iter().zip(warm.iter()) {
+                charset_normalizer_rs::verif_hooks::flush_caches();
+                let cold = real_detect(&bytes, &mk(*t));
+                rep.evaluations += 1;
+                rep.oracle_checked += 1;
+                rep.count("oracle:threshold-sequence");
+                if &cold != w {
+                    rep.fail("oracle", "C13:chaos-depends-on-earlier-thresholds", &format!("thr {} after {:?}: {} || alone: {}", t, thrs, w.show(), cold.show()), &bytes, Some(&mk(*t)), "threshold-sequence");
+                }
+            }
+        }
+    }
     rep.model_rounds = drv.requests;
     rep
 }
